@@ -1,6 +1,7 @@
 package main
 
 import (
+	"verif/shim/vlock"
 	"bufio"
 	"bytes"
 	"encoding/json"
@@ -120,6 +121,13 @@ func c28Exec(n *node, rt *apimodel.Route, q *c28Req) (o c28Obs) {
 		}()
 		n.mux.ServeHTTP(rec, req)
 	}()
+	// lock-order seam (shim/vlock): a recursive read lock taken while serving the request hangs the handler as soon as a
+	// writer arrives between the two acquisitions (one scheduling deviation) — reported like a crash of the handler
+	if evs := vlock.Drain(); len(evs) > 0 && o.Panic == "" {
+		o.Panic = "handler can hang: " + evs[0].Kind + " (first acquired in " + evs[0].Outer + ")"
+		o.Site = "can-hang:" + evs[0].Kind + ":" + evs[0].Site
+		o.Stack = evs[0].Stack
+	}
 	o.Status = rec.Code
 	body := rec.Body.Bytes()
 	o.BodyOK = true
